@@ -39,3 +39,10 @@ func VerifConstants() map[string]uint64 {
 		"x32SyscallMask":       uint64(x32SyscallMask),
 	}
 }
+
+// Exported aliases of unexported constants, so that they can be compared at
+// compile time on build targets that cannot be executed by the harness.
+const (
+	VerifErrnoEPERM  = errnoEPERM
+	VerifErrnoENOSYS = errnoENOSYS
+)
